@@ -1684,6 +1684,8 @@ func work(r *hxlib.Run) {
 		g.bulk(100000, "random", "random", true)
 		run(g, "bulk-100000")
 	}
+	// 5. key / value representation, held outputs, re-entrant actions (legs3.go; oracle-only)
+	typeLegs(r)
 	if r.Search {
 		if r.Failed() {
 			r.Note("search legs not run: the thorough generators already produced a failing input")
